@@ -23,7 +23,7 @@ def sortNat (l : List Nat) : List Nat := (l.toArray.qsort (· < ·)).toList
 def snapshot (g : Grp) : String :=
   "r" ++ showOpt g.rtmpPub ++ " s" ++ showOpt g.rtspPub ++ " c" ++ showOpt g.custPub ++ " g" ++ showOpt g.psPub ++
   " lr" ++ showOpt g.pullRtmp ++ " ls" ++ showOpt g.pullRtsp ++
-  " p" ++ (if g.pulling then "1" else "0") ++ " e" ++ (if g.apiEnable then "1" else "0") ++
+  " p" ++ (if g.pulling then "1" else "0") ++ " u" ++ showOpt g.pullingUk ++ " e" ++ (if g.apiEnable then "1" else "0") ++
   " n" ++ toString g.startCount ++ " h" ++ (if g.hook.isSome then "1" else "0") ++
   " rs[" ++ showList (sortNat g.rtmpSubs) ++ "] ss[" ++ showList (sortNat g.rtspSubs) ++ "]" ++
   " ia" ++ (if g.isInactive then "1" else "0")
@@ -35,9 +35,15 @@ def showObs : GObs → Option String
   | .hookStop => some "hp"
   | _ => none
 
+/-- a pull attempt the group itself started; its goroutine is parked at the harness's origin -/
+structure Att where
+  id : Sid
+  rtsp : Bool
+  answered : Bool := false
+
 structure L1 where
   g : Grp := {}
-  inflight : List Sid := []                  -- the pull attempts the group itself started, oldest first (their goroutines are parked)
+  inflight : List Att := []                  -- the attempts that have not ended, oldest first
   kinds : List (Sid × Grp.KKind) := []
   custs : List (Sid × Bool) := []            -- customize contexts the harness holds ↦ disposed
   dead : Bool := false                       -- Dispose() was called
@@ -53,11 +59,22 @@ def stepL1 (code : Code) (s : L1) (ev : List String) : L1 × String × List GObs
   let g := s.g
   let spawn (s : L1) (a : Option Sid) : L1 :=
     match a with
-    | some n => { s with inflight := s.inflight ++ [n], kinds := (n, .pull) :: s.kinds }
+    | some n => { s with inflight := s.inflight ++ [{ id := n, rtsp := s.g.pullIsRtsp }], kinds := (n, .pull) :: s.kinds }
     | none => s
+  -- the attached pull session was disposed (StopPull, kick): its goroutine — one of the group's own
+  -- attempts — calls Del…PullSession; the harness waits for it, the two critical sections are one event
+  let finish (r : L1 × String × List GObs) : L1 × String × List GObs :=
+    r.2.2.foldl (fun acc o =>
+      match o with
+      | .dispose x =>
+        if acc.1.inflight.any (·.id == x) then
+          let d := acc.1.g.delPull code x
+          ({ acc.1 with g := d.1, inflight := acc.1.inflight.filter (·.id != x) }, acc.2.1, acc.2.2 ++ d.2)
+        else acc
+      | _ => acc) r
   let arrival (ev : List String) : Bool :=
     match ev with
-    | t :: _ => ["RP", "SP", "CP", "GP", "LA", "LS", "RS", "SD", "SY", "T", "D"].contains t
+    | t :: _ => ["RP", "SP", "CP", "GP", "LA", "LS", "LO", "RS", "SD", "SY", "T", "D"].contains t
     | [] => false
   let unknownDeparture (ev : List String) : Bool :=
     match ev with
@@ -84,19 +101,34 @@ def stepL1 (code : Code) (s : L1) (ev : List String) : L1 × String × List GObs
     | some (_, d) => (s, if !d && g.hook.isSome then "fwd" else "drop", [])
   | ["GP", x] => let x := nat! x; let r := g.startRtpPub code x
     ({ s with g := r.1, kinds := (x, .psPub) :: s.kinds }, bstr r.2.1 "ok" "dup", r.2.2)
-  | ["GK", x] => let x := nat! x; let r := g.kick .psPub x
+  | ["GK", x] => let x := nat! x; let r := g.kick code .psPub x
     if r.2.1 then let r2 := r.1.delPsPub x; ({ s with g := r2.1 }, "true", r2.2) else ({ s with g := r.1 }, "false", [])
   | ["LA", x, r] => let x := nat! x
-    let r := if r == "1" then g.addRtspPull x else g.addRtmpPull x
-    ({ s with g := r.1, kinds := (x, .pull) :: s.kinds }, bstr r.2.1 "ok" "dup", r.2.2)
+    let ans := match g.pullRefusal code x with
+      | none => "ok" | some .dup => "dup" | some .stopped => "err"
+    let r := if r == "1" then g.addRtspPull code x else g.addRtmpPull code x
+    ({ s with g := r.1, kinds := (x, .pull) :: s.kinds }, ans, r.2.2)
   | ["LD", x, _] => let r := g.delPull code (nat! x); ({ s with g := r.1 }, "-", r.2)
   | ["LS", retry, nid] => let r := g.startPull false (retryOf retry) (nat! nid)
     (spawn { s with g := r.1 } r.2.1, bstr r.2.1.isSome "ok" "fail", r.2.2)
+  | ["LS", retry, nid, rt] => let r := g.startPull (rt == "1") (retryOf retry) (nat! nid)
+    (spawn { s with g := r.1 } r.2.1, bstr r.2.1.isSome "ok" "fail", r.2.2)
+  | ["LO"] =>
+    match s.inflight.find? (!·.answered) with
+    | none => (s, "na", [])
+    | some a =>
+      let r := if a.rtsp then g.addRtspPull code a.id else g.addRtmpPull code a.id
+      if r.2.1 then
+        ({ s with g := r.1, inflight := s.inflight.map fun b => if b.id == a.id then { b with answered := true } else b }, "ok", r.2.2)
+      else
+        -- refused: the callback disposes the session and the same goroutine calls Del…PullSession
+        let d := g.delPull code a.id
+        ({ s with g := d.1, inflight := s.inflight.filter (·.id != a.id) }, "refused", d.2)
   | ["LF"] =>
     match s.inflight with
     | [] => (s, "na", [])
-    | a :: rest => let r := g.delPull code a; ({ s with g := r.1, inflight := rest }, "-", r.2)
-  | ["LT"] => let r := g.stopPull; ({ s with g := r.1 }, "id" ++ showOpt r.2.1, r.2.2)
+    | a :: rest => let r := g.delPull code a.id; ({ s with g := r.1, inflight := rest }, "-", r.2)
+  | ["LT"] => let r := g.stopPull code; finish ({ s with g := r.1 }, "id" ++ showOpt r.2.1, r.2.2)
   | ["RS", x, nid] => let x := nat! x; let r := g.addRtmpSub x (nat! nid)
     (spawn { s with g := r.1, kinds := (x, .rtmp) :: s.kinds } r.2.1, "-", r.2.2)
   | ["Rs", x] => ({ s with g := g.delRtmpSub (nat! x) }, "-", [])
@@ -104,8 +136,8 @@ def stepL1 (code : Code) (s : L1) (ev : List String) : L1 × String × List GObs
     ({ s with g := g.describeRtspSub x, kinds := (x, .rtspSub) :: s.kinds }, "-", [])
   | ["SY", _, nid] => let r := g.playRtspSub (nat! nid); (spawn { s with g := r.1 } r.2.1, "-", r.2.2)
   | ["Ss", x] => ({ s with g := g.delRtspSub (nat! x) }, "-", [])
-  | ["K", x] => let x := nat! x; let r := g.kick (s.kind x) x
-    ({ s with g := r.1 }, bstr r.2.1 "true" "false", r.2.2)
+  | ["K", x] => let x := nat! x; let r := g.kick code (s.kind x) x
+    finish ({ s with g := r.1 }, bstr r.2.1 "true" "false", r.2.2)
   | ["T", nid] => let r := g.tick (nat! nid); (spawn { s with g := r.1 } r.2.1, "-", r.2.2)
   | ["D"] => let r := g.dispose; ({ s with g := r.1, dead := true }, "-", r.2)
   | _ => (s, "bad-event", [])
@@ -157,7 +189,9 @@ def oracleL1 (evs : List (List String)) (impl : String) : String :=
       let obsL := if obs == "" then [] else splitOnChar obs ','
       let v :=
         if sn.inputs.length > 1 then "bad:two-inputs-installed:" ++ sn.core
-        else if res == "dup" && (sn.core != prev.core || !obsL.isEmpty) then "bad:refusal-not-silent"
+        else if (res == "dup" || res == "err") && (sn.core != prev.core || !obsL.isEmpty) then "bad:refusal-not-silent"
+        -- a refused attempt of the group's own ends at once: exactly its relay_pull_stop, nothing else moves
+        else if res == "refused" && (sn.core != prev.core || obsL.any (fun o => !o.startsWith "rp")) then "bad:refusal-not-silent"
         else if res == "fwd" && !(match ev with | [_, x] => sn.inputs.contains x | _ => false) then "bad:forwarded-media-of-a-session-that-is-not-the-input"
         else match departs ev with
           | some x =>
